@@ -105,7 +105,7 @@ pub fn run(rep: &mut Report) {
                 if build == Build::Reused {
                     cost += 5. * (m as f64) * m as f64 + 30. * 20_000.;
                 }
-                let budget: f64 = rep.tier.pick(2.5e9, 1e11);
+                let budget: f64 = rep.tier.pick(2.5e9, 2.5e10);
                 let tt = ((budget / cost) as u64).clamp(200, t1);
                 if rep.tier == Tier::Quick && n >= 100_000 && crng.random_range(0..3) != 0 {
                     continue;
